@@ -189,6 +189,7 @@ func (m *mulForge) recarryField() {
 type mulAudit struct {
 	quoOut, remOut bool // a quotient / remainder limb outside the range the circuit is documented to enforce
 	carryBeyond    bool // a carry limb beyond the honest bound
+	intFalse       bool // lhs != rem + quo*p over the integers (it can then only hold modulo the native field)
 }
 
 func (m *mulForge) audit(topBits uint) mulAudit {
@@ -220,6 +221,9 @@ func (m *mulForge) audit(topBits uint) mulAudit {
 		}
 	}
 	h.Lsh(h, 1)
+	if recompose(m.lhs, m.w).Cmp(recompose(m.rhs(), m.w)) != 0 {
+		a.intFalse = true
+	}
 	half := new(big.Int).Rsh(m.N, 1)
 	for _, cl := range m.car {
 		s := new(big.Int).Mod(cl, m.N)
@@ -238,6 +242,7 @@ type advAudit struct {
 	applied      []string // kinds applied
 	infeasible   []string // kinds that could not be built for the targeted invocation
 	carryBeyond  bool     // some mul-type call ended with a carry beyond the honest bound
+	intFalse     bool     // some mul-type call ended with an identity that is false over the integers
 	outOfRange   bool     // some rewritten output violates a range the circuit is documented to enforce
 	nonMulChange bool
 	counts       map[string]int
@@ -462,6 +467,9 @@ func strategy(strats []Strat, counts map[string]int, ps *paramSet, au *advAudit)
 			a := mf.audit(ps.TopBits)
 			if a.carryBeyond {
 				au.carryBeyond = true
+			}
+			if a.intFalse {
+				au.intFalse = true
 			}
 			if changed && (a.quoOut || a.remOut) {
 				au.outOfRange = true
